@@ -169,3 +169,20 @@ def make_tokenizer(params: dict):
     else:
         seq = PromptSequencers.AOP(coord_tokenizer=coord, adj_list_tokenizer=adj, path_tokenizer=path)
     return MazeTokenizerModular(prompt_sequencer=seq)
+
+
+def dataset_digest(spec: dict) -> str:
+    """digest of the serially generated dataset of a specification (importable, so that it can run inside worker processes a caller
+    created with multiprocessing - under the fork and the spawn start method alike)"""
+    import hashlib
+    import json
+    import warnings
+
+    warnings.filterwarnings("ignore")
+    from maze_dataset import MazeDataset
+
+    try:
+        ds = MazeDataset.generate(make_cfg(spec))
+    except ValueError:
+        return "ValueError"
+    return hashlib.sha256(json.dumps([(g_of(m)["cl"], [list(c) for c in as_cells(m.solution)]) for m in ds.mazes]).encode()).hexdigest()
